@@ -92,7 +92,7 @@ def run_one(task):
         code, rep, _ = analyse(prop, root, "quick", quiet=True, overlay=overlay)
     except Exception as exc:  # the analyser itself crashed on the variant
         import traceback
-        return (prop, kind, v["name"], "CRASH", traceback.format_exc()[-400:])
+        return (prop, kind, v["name"], "CRASH", traceback.format_exc().strip().splitlines()[-1][:200])
     res = rep.result
     if kind == "twin":
         if code == 0:
